@@ -645,7 +645,7 @@ func init() {
 		Rule:        "failing sessions: every runtime error class raised at top level, at call depth 1..200, in while/for bodies, in generators after the k-th yield, in nested generators under a zipped loop, in returned closures, inside pipeline stage functions 1..3 generators deep (at top level and inside a function), through parameters that hold functions and closures (the name in the backtrace is the name used at the call site), inside built-in functions, plus typed sessions with planted faults; REPL and script mode. For each failing statement the printed report is parsed and compared with the reference: header class, marked instruction = last instruction the step hook saw dispatched and of the opcode family of the failing operation, listed operands an ordered subset of the operands the operation saw, one memory-context block per active coroutine (failing one first) each listing the active calls innermost first with call-site name, argument count and current argument values; no 'giving up', no panic. Every case with a checked report is non-trivial; distinct by session and mode.",
 		Assumptions: []string{"completeness of the operand list is not demanded (TMP forms list one operand), correctness and order are", "argument values are compared in the report's own 20-character abbreviation"},
 		Families: []core.Family{
-			{Name: "reports", Count: countFn(12000, 1500000), Run: c19Case},
+			{Name: "reports", Count: countFn(12000, 500000), Run: c19Case},
 		},
 		Floors: []core.Floor{{Key: "reports_checked", Quick: 3000, Thor: 300000}, {Key: "frames_checked", Quick: 8000, Thor: 800000}, {Key: "reports_from_inside_generators", Quick: 500, Thor: 50000}, {Key: "tag:err:", Quick: 7, Thor: 7}, {Key: "tag:op:", Quick: 12, Thor: 12}, {Key: "tag:failure-at:", Quick: 23, Thor: 23}},
 	})
